@@ -26,7 +26,7 @@ Inductive spred :=
 | SIsNull (neg : bool) (a : sexpr)           (* IS NULL / IS NOT NULL : what SQLAlchemy emits for == None / != None *)
 | SIn (a : sexpr) (vs : list val)
 | SInstr (hay : list Z) (a : sexpr)          (* instr(:hay, col) > 0 *)
-| SLike (a : sexpr) (pat : list Z)           (* col LIKE '%' || :pat || '%' *)
+| SInstrCol (a : sexpr) (needle : list Z)    (* instr(col, :needle) > 0 *)
 | STruth (a : sexpr)                         (* WHERE col *)
 | SAnd (p q : spred) | SOr (p q : spred).
 Inductive join :=
@@ -69,28 +69,13 @@ Definition sql_cmp (op : cmpop) (a b : val) : tv :=
 Fixpoint sql_in (v : val) (vs : list val) : tv :=
   match vs with [] => TF | x :: vs' => tv_or (sql_eq v x) (sql_in v vs') end.
 
-(* LIKE of SQLite: case-insensitive for ASCII letters, '%' any run, '_' any one character *)
-Definition lower (c : Z) : Z := if (65 <=? c) && (c <=? 90) then c + 32 else c.
-Fixpoint like (pat : list Z) : list Z -> bool :=
-  match pat with
-  | [] => fun s => match s with [] => true | _ => false end
-  | p :: pat' =>
-      if p =? 37 then
-        (fix star (s : list Z) : bool := like pat' s || match s with [] => false | _ :: s' => star s' end)
-      else
-        fun s => match s with
-                 | [] => false
-                 | c :: s' => ((p =? 95) || (lower p =? lower c)) && like pat' s'
-                 end
-  end.
-
 Fixpoint eval_pred (env : list row) (p : spred) : tv :=
   match p with
   | SCmp op a b => sql_cmp op (eval_sx env a) (eval_sx env b)
   | SIsNull neg a => match eval_sx env a with VNull => tv_of_bool (negb neg) | _ => tv_of_bool neg end
   | SIn a vs => sql_in (eval_sx env a) vs
   | SInstr hay a => match eval_sx env a with VStr n => tv_of_bool (is_infix n hay) | VNull => TU | _ => TF end
-  | SLike a pat => match eval_sx env a with VStr s => tv_of_bool (like (37 :: pat ++ [37]) s) | VNull => TU | _ => TF end
+  | SInstrCol a n => match eval_sx env a with VStr h => tv_of_bool (is_infix n h) | VNull => TU | _ => TF end
   | STruth a => match eval_sx env a with VInt z => tv_of_bool (negb (z =? 0)) | VNull => TU | _ => TF end
   | SAnd p q => tv_and (eval_pred env p) (eval_pred env q)
   | SOr p q => tv_or (eval_pred env p) (eval_pred env q)
@@ -115,7 +100,7 @@ Definition sx_bad (e : sexpr) : bool := match e with SConst v => unbindable v | 
 Fixpoint pred_bad (p : spred) : bool :=
   match p with
   | SCmp _ a b => sx_bad a || sx_bad b
-  | SIsNull _ a | SInstr _ a | SLike a _ | STruth a => sx_bad a
+  | SIsNull _ a | SInstr _ a | SInstrCol a _ | STruth a => sx_bad a
   | SIn a vs => sx_bad a || existsb unbindable vs
   | SAnd p q | SOr p q => pred_bad p || pred_bad q
   end.
